@@ -102,6 +102,7 @@ class Unit:
         from apischema import order
         from apischema.ordering import sort_by_order
 
+        self.method_note = 'enumeration: every ordering spec is a fork (order values are hashed by the code); no symbolic value'
         self.job = job
         self.n = job["n"]
         self.names = [f"e{i}" for i in range(self.n)]
@@ -153,6 +154,7 @@ class Sites:
     """real classes: the four call sites must produce the same permutation"""
 
     def __init__(self, job):
+        self.method_note = 'enumeration, executed concretely under NoTracing: call-site comparison on generated classes'
         self.job = job
         self.nf, self.nm = job["nf"], job["nm"]
         self.names = [f"f{i}" for i in range(self.nf)] + [f"m{i}" for i in range(self.nm)]
